@@ -330,7 +330,7 @@ Import ListNotations.
 Open Scope string_scope.
 Open Scope list_scope.
 Definition mkq (num : Z) (den : positive) : Qc := Q2Qc (num # den).
-Definition FX : fixes := {| fix_D31 := @D31@; fix_overlap := @OVERLAP@ |}.
+Definition FX : fixes := {| fix_D31 := @D31@; fix_overlap := @OVERLAP@; fix_short := @SHORT@; fix_popwild := @POPWILD@ |}.
 Definition qeqb (a b : Qc) : bool := Qeq_bool (this a) (this b).
 Fixpoint leqb {A} (e : A -> A -> bool) (a b : list A) : bool :=
   match a, b with [], [] => true | x :: a', y :: b' => e x y && leqb e a' b' | _, _ => false end.
@@ -386,8 +386,11 @@ Definition r_g7 (c : rcase) := let '(t, L, f, reqs, times, rates, vr, ob) := c i
 # The repairs D73 (D31) and D77 (overlapping wildcard keys) have landed: the mechanism model runs with both switches on and
 # their guards are not guards any more.  VERIF_C06_FIXES=none|D31|overlap evaluates an older model (debugging aid only).
 FIXES = [x for x in os.environ.get("VERIF_C06_FIXES", "D31,overlap").split(",") if x and x != "none"]
-HEADER = HEADER.replace("@D31@", "true" if "D31" in FIXES else "false").replace("@OVERLAP@", "true" if "overlap" in FIXES else "false")
-DROPPED = (["names_resolve"] if "D31" in FIXES else []) + (["no_overlap"] if "overlap" in FIXES else [])
+# proposed repairs are validated with e.g. VERIF_C06_FIXES=D31,overlap,short  /  D31,overlap,popwild
+HEADER = (HEADER.replace("@D31@", "true" if "D31" in FIXES else "false").replace("@OVERLAP@", "true" if "overlap" in FIXES else "false")
+          .replace("@SHORT@", "true" if "short" in FIXES else "false").replace("@POPWILD@", "true" if "popwild" in FIXES else "false"))
+DROPPED = ((["names_resolve"] if "D31" in FIXES else []) + (["no_overlap"] if "overlap" in FIXES else []) +
+           (["not_too_short"] if "short" in FIXES else []) + (["no_pop_in_wildcard"] if "popwild" in FIXES else []))
 HEADER += """(* ---- stream edge *)
 Definition ecase := (layout * list Qc * list Qc * list (pedge Qc) * list (path * Qc) * list path * bool)%type.
 Definition q0 : Qc := mkq 0 1.
